@@ -93,7 +93,7 @@ def config_space():
     return {"x": uniform(0.0, 1.0), "k": randint(1, 50), MAXRES: MAX_T}
 
 
-def make_scheduler(kind: str, seed: int, mode="min"):
+def make_scheduler(kind: str, seed: int, mode="min", early=None):
     from syne_tune.optimizer.schedulers import (FIFOScheduler, HyperbandScheduler, MedianStoppingRule,
                                                 PopulationBasedTraining)
     from syne_tune.optimizer.schedulers.synchronous import (SynchronousGeometricHyperbandScheduler,
@@ -117,6 +117,9 @@ def make_scheduler(kind: str, seed: int, mode="min"):
             kw["cost_attr"] = "cost"
         if typ.startswith("rush"):
             kw["rung_system_kwargs"] = {"num_threshold_candidates": 1}
+        if early is not None:
+            # speculative early removal of checkpoints of paused trials, explicitly requested
+            kw["early_checkpoint_removal_kwargs"] = dict(early)
         return HyperbandScheduler(cs, **kw)
     if kind == "synchb":
         return SynchronousGeometricHyperbandScheduler(cs, searcher="random", search_options=so, resource_attr=RES,
@@ -139,7 +142,7 @@ PAUSE_RESUME = {"hb_promotion", "hb_pasha", "hb_cost_promotion", "synchb", "dehb
 
 
 def run(kind: str, seed: int, n_workers: int, started_budget: int, p_fail=0.0, p_ext=0.0, delete_checkpoints=False,
-        checkpointing=True, maxfail=3, async_sched=True, wait=False, remove_ckpt_callback=False, sjwd=True):
+        checkpointing=True, maxfail=3, async_sched=True, wait=False, early=None, sjwd=True):
     """One real Tuner.run with a real scheduler; returns the TunerLoop trace."""
     import numpy as np
     from syne_tune import StoppingCriterion
@@ -148,8 +151,8 @@ def run(kind: str, seed: int, n_workers: int, started_budget: int, p_fail=0.0, p
     log = []
     backend = FreeRunningBackend(log, seed, p_fail=p_fail, p_ext=p_ext, checkpointing=checkpointing,
                                  delete_checkpoints=delete_checkpoints, max_fail=6, max_res_attr=MAXRES)
-    sched = make_scheduler(kind, seed)
-    conf = {"nw": n_workers, "kind": "pause", "maxfail": maxfail, "async": async_sched, "wait": wait,
+    sched = make_scheduler(kind, seed, early=early)
+    conf = {"spec": early is not None, "nw": n_workers, "kind": "pause", "maxfail": maxfail, "async": async_sched, "wait": wait,
             "del": delete_checkpoints, "ckind": "started", "k": started_budget, "sjwd": sjwd}
     # the scheduler may declare trials as never-resumable (synchronous Hyperband): logged as Removable events
     if hasattr(sched, "trials_checkpoints_can_be_removed"):
